@@ -239,6 +239,17 @@ func runC34(c *Ctx) {
 				if strings.Contains(d, "rangeindex") {
 					return
 				}
+				// a decision and its negation with the branches swapped are the same decision:
+				// list each under its >= / <= / == form
+				x, y := u.describe(b.X, 9), u.describe(b.Y, 9)
+				switch b.Op {
+				case token.LSS:
+					d = "(" + x + " >= " + y + ")"
+				case token.GTR:
+					d = "(" + x + " <= " + y + ")"
+				case token.NEQ:
+					d = "(" + x + " == " + y + ")"
+				}
 				set[d] = true
 			}
 		})
